@@ -55,6 +55,28 @@ class VRuntimeExc(VExc, RuntimeError):
     """same, but a RuntimeError (callers sometimes treat those specially)"""
 
 
+class VBaseExc(BaseException):
+    """same, but not derived from Exception (a home-made abort class): asyncio stores it on the
+    task like any other, and the package must treat it like any other"""
+
+    def __init__(self, origin, message=None):
+        if message is None:
+            super().__init__("abort-%d" % origin)
+        else:
+            super().__init__(*message)
+        self.origin = origin
+
+
+class Awaitable:
+    """an awaitable that is not a coroutine object: Job() takes any awaitable"""
+
+    def __init__(self, coro):
+        self.coro = coro
+
+    def __await__(self):
+        return self.coro.__await__()
+
+
 class Ret:
     """the object returned by the body of node `origin`"""
 
@@ -153,6 +175,10 @@ class Ctx:
                     except asyncio.CancelledError:
                         self.log("recancel", node)
             await self.wait_for_sibling(node)
+            if self.cfg.get("cout", ["cancelled"] * self.n)[node - 1] == "exc":
+                # the clean-up fails (a `finally:` that raises): the body finishes by raising
+                self.log("cancel-raise", node)
+                raise VExc(node)
             self.log("cancel-done", node)
             raise
         self.left.add(node)
@@ -160,16 +186,18 @@ class Ctx:
             self.log("raise", node)
             self.stall(node)
             # an exception may carry no message at all (a bare assert, TimeoutError())
-            klass = VRuntimeExc if self.h.get("rterr") else VExc
+            klass = VBaseExc if self.h.get("baseexc") and node % 3 != 0 else \
+                VRuntimeExc if self.h.get("rterr") else VExc
             raise klass(node, () if self.h.get("emptymsg") else None)
         self.log("end", node)
         self.peek()
         self.stall(node)
         if self.h.get("awaitable") and node % 2 == 0:
             # the object a body returns may itself be awaitable (a future, a task handle):
-            # it is the job's result as it stands
+            # it is the job's result as it stands, settled (1) or still pending (2)
             fut = self.loop.create_future()
-            fut.set_result("inner-%d" % node)
+            if self.h.get("awaitable") != 2:
+                fut.set_result("inner-%d" % node)
             self.ret[node] = fut
         return self.ret[node]
 
@@ -233,7 +261,7 @@ class Ctx:
     def exc_tag(self, exc, node=0):
         """(kind, origin): origin = node whose body raised the object, or -s
         for a TimeoutError first seen coming out of scheduler s (identity)"""
-        if isinstance(exc, VExc):
+        if isinstance(exc, (VExc, VBaseExc)):
             return "exc", exc.origin
         if isinstance(exc, TimeoutError):
             hit = self.excs.get(id(exc))
@@ -340,6 +368,8 @@ def make_classes(ctx):
             self._vhash = ctx.hk("hash", node, node)
             corun, coshut = ctx.body(node), ctx.handler(node)
             ctx.coros += [corun, coshut]
+            if ctx.h.get("awtjobs"):
+                corun, coshut = Awaitable(corun), Awaitable(coshut)
             Job.__init__(self, corun, coshutdown=coshut, **kwds)
 
     class SchedMixin:
@@ -633,6 +663,10 @@ def _run_scenario(sc):
                         top.shutdown()
                     except (Deadlock, Livelock):
                         ctx.log("late-hang", 1)
+                        hung = True
+                    except BaseException as exc:        # pylint: disable=W0703
+                        # the explicit shutdown() is not supposed to raise anything
+                        ctx.log("late-exc", 1, type(exc).__name__)
                         hung = True
                     loop.on_tick = None
                 if not hung:
